@@ -114,6 +114,42 @@ def histories(ctx, d, th):
     ctx.cov["history_classes"] = nclasses
 
 
+def sandbox_flag(ctx):
+    """The same field reached from the command line: cmd/sandbox's -no-new-privs flag is the caller's request. The target (a separate
+    program image) reports its own NoNewPrivs bit; an unprivileged run without the request must not start the target."""
+    import os
+    import cmdfam
+    import c15
+    dd = cmdfam.build_cmds(ctx)
+    scratch = os.path.join(dd, "work")
+    os.makedirs(scratch, exist_ok=True)
+    os.chmod(scratch, 0o777)
+    n = 0
+    for nnp in (True, False):
+        for uid in (0, 65534):
+            n += 1
+            res = c15.run_sandbox(dd, scratch, "none", 7000 + n, nnp=nnp, uid=uid)
+            if res is None:
+                ctx.skip("sandbox run timed out")
+                continue
+            ctx.cov["evaluations"] += 1
+            bit = None
+            try:
+                bit = json.loads(res["stdout"].strip().splitlines()[-1])["status"]["nnp"]
+            except Exception:
+                pass
+            rep = {"run": {k: res[k] for k in ("rc", "stderr", "marker", "nnp", "uid")}, "target_reports_NoNewPrivs": bit, "how": "./check C11 quick"}
+            who = "root" if uid == 0 else "uid nobody"
+            if nnp and res["marker"] and bit != 1:
+                ctx.violation("cmd/sandbox with no_new_privs requested (%s): the target runs with NoNewPrivs = %s" % (who, bit), rep)
+            if not nnp and uid == 0 and res["marker"] and bit != 0:
+                ctx.violation("cmd/sandbox -no-new-privs=false as root: the bit was not requested but the target runs with NoNewPrivs = %s" % bit, rep)
+            if not nnp and uid != 0 and (res["marker"] or res["rc"] == 0):
+                ctx.violation("cmd/sandbox -no-new-privs=false as uid nobody: the load must fail, but %s" % ("the target was started" if res["marker"] else "the exit status is 0"), rep)
+            if nnp and uid != 0 and not res["marker"]:
+                ctx.note("cmd/sandbox with no_new_privs requested as uid nobody did not run the target (rc %d): %s" % (res["rc"], res["stderr"][-100:]))
+
+
 def check(ctx, replay=None):
     d = lf.child_bin(ctx)
     if replay:
@@ -179,6 +215,7 @@ def check(ctx, replay=None):
     if failed > len(work) // 4:
         raise vlib.Machinery("%d of %d children failed" % (failed, len(work)))
     histories(ctx, d, th)
+    sandbox_flag(ctx)
     ctx.cov["cases"] = len(cases)
     ctx.cov["migrations_that_took_effect"] = migrated
     ctx.cov["rule"] = ("every load case of LoaderGen with migration: {root, nobody} x NoNewPrivs x flags {0, tsync, log, tsync|log} x {no attempt, forced migration attempt at "
